@@ -142,9 +142,9 @@ Record mon := {
 Definition viol (b : bool) (clause : N) : verdict := if b then V_ok else V_violation clause.
 Definition mism (b : bool) (code : N) : verdict := if b then V_ok else V_mismatch code.
 (* clause 1 / 3 failures after a restart that skipped the repair with a torn record in place
-   belong to known finding 1 *)
+   belong to known finding 9 *)
 Definition viol_k (tainted : bool) (b : bool) (clause : N) : verdict :=
-  if b then V_ok else if tainted then V_known 1 else V_violation clause.
+  if b then V_ok else if tainted then V_known 9 else V_violation clause.
 
 Definition frame_size (d : bytes) : Z := 8 + len d.
 Fixpoint prefix_sums (acc : Z) (l : list bytes) : list Z :=
